@@ -309,6 +309,16 @@ class Sched:
         self.client.state = RUNNABLE
 
     def drain(self):
-        """Let every remaining worker (zombies) run to completion."""
-        if self.live_workers():
-            self.wait(lambda: not self.live_workers(), "drain")
+        """Let every remaining worker (zombies) run until nothing more can happen: each one has finished or is parked for
+        good - an idle worker of a pool the code keeps alive between requests, a thread waiting for a signal nobody will
+        send.  (Waiting for every worker to END reported a cache that keeps its pool as "never returns": seeded change
+        s214 was 'detected' that way, which is a harness artefact, not a violation - DESIGN 15.5 item 35.)"""
+        def quiet():
+            for x in self.actors:
+                if x.is_client or x.state == DONE:
+                    continue
+                if x.state != BLOCKED or x.deadline is not None or x.pred():
+                    return False
+            return True
+        if not quiet():
+            self.wait(quiet, "drain")
